@@ -74,7 +74,7 @@ class UnitGen:
             for f in fns:
                 if rest == '*' and f.path in self.fn_modes:
                     continue   # explicit entries win over wildcards
-                self.fn_modes[f.path] = mode
+                self.fn_modes[f.path] = mode if not f.via else 'stub'
                 self.fn_specs[f.path] = f
         self.used_modules = []
         for mp, m in self.modules.items():
